@@ -78,6 +78,7 @@ type prover struct {
 	bounds      map[string]bool
 	subst       map[ssa.Value]ssa.Value // parameter → actual argument (caller-side discharge)
 	at          ssa.Instruction         // the site the facts are collected for (nil: none in particular)
+	growDepth   int
 	pendingNE   [][2]linExpr
 	idxPending  []ssa.Value
 	inRefresh   bool
@@ -801,6 +802,22 @@ func (p *prover) lenFacts(key string, x ssa.Value) {
 			p.condUpdateFact(e, t)
 			if fa, ok := t.X.(*ssa.FieldAddr); ok && fieldNeverEmpty(fa) {
 				p.ge(e, newLin(1))
+			}
+			// a field that is only ever appended to is at least as long as it was at an earlier load
+			if fa, ok := t.X.(*ssa.FieldAddr); ok && p.growDepth < 2 && fieldOnlyGrows(fa) {
+				k := addrKey(p.canon0(t.X), 0)
+				p.growDepth++
+				allInstrs(p.fn, func(in ssa.Instruction) {
+					l1, ok := in.(*ssa.UnOp)
+					if !ok || l1 == t || l1.Op != token.MUL || !instrDominates(l1, t) {
+						return
+					}
+					if _, isFA := l1.X.(*ssa.FieldAddr); !isFA || addrKey(p.canon0(l1.X), 0) != k || k == "" {
+						return
+					}
+					p.ge(e, p.lenOf(l1))
+				})
+				p.growDepth--
 			}
 		}
 	case *ssa.Call:
@@ -2333,4 +2350,100 @@ func fieldNeverEmpty(fa *ssa.FieldAddr) bool {
 	}
 	fieldNeverEmptyMemo[key] = okAll && nAlloc > 0
 	return fieldNeverEmptyMemo[key]
+}
+
+var fieldOnlyGrowsMemo = map[string]bool{}
+
+// fieldOnlyGrows: the slice field fa addresses — an unexported field of a struct type of the module — is, once the
+// struct exists, only ever stored an append onto its own current value (`x.f = append(x.f, …)` with the same x); the
+// struct is never assigned as a whole and the field's address is only loaded and stored.  Its length never goes down.
+func fieldOnlyGrows(fa *ssa.FieldAddr) bool {
+	if theProgram == nil {
+		return false
+	}
+	pt, ok := fa.X.Type().Underlying().(*types.Pointer)
+	if !ok {
+		return false
+	}
+	named, ok := types.Unalias(pt.Elem()).(*types.Named)
+	if !ok || named.Obj().Pkg() == nil || !isModPkg(named.Obj().Pkg().Path()) {
+		return false
+	}
+	st, ok := named.Underlying().(*types.Struct)
+	if !ok || fa.Field >= st.NumFields() || st.Field(fa.Field).Exported() {
+		return false
+	}
+	if _, isSlice := st.Field(fa.Field).Type().Underlying().(*types.Slice); !isSlice {
+		return false
+	}
+	key := named.String() + "#" + st.Field(fa.Field).Name()
+	if v, ok := fieldOnlyGrowsMemo[key]; ok {
+		return v
+	}
+	fieldOnlyGrowsMemo[key] = false
+	isT := func(t types.Type) bool {
+		if t == nil {
+			return false
+		}
+		n, ok := types.Unalias(t).(*types.Named)
+		return ok && n.Obj() == named.Obj()
+	}
+	sameField := func(x *ssa.FieldAddr) bool {
+		p, ok := x.X.Type().Underlying().(*types.Pointer)
+		return ok && isT(p.Elem()) && x.Field == fa.Field
+	}
+	okAll := true
+	for _, fn := range theProgram.ModFuncs() {
+		allInstrs(fn, func(in ssa.Instruction) {
+			if !okAll {
+				return
+			}
+			switch t := in.(type) {
+			case *ssa.Store:
+				if isT(t.Val.Type()) {
+					okAll = false
+					return
+				}
+				f, ok := t.Addr.(*ssa.FieldAddr)
+				if !ok || !sameField(f) {
+					return
+				}
+				// a store into a freshly allocated struct (the literal that creates it) starts the object's life
+				if _, fresh := f.X.(*ssa.Alloc); fresh {
+					return
+				}
+				c, ok := t.Val.(*ssa.Call)
+				if !ok || calleeName(&c.Call) != "builtin.append" || len(c.Call.Args) != 2 {
+					okAll = false
+					return
+				}
+				l, ok := c.Call.Args[0].(*ssa.UnOp)
+				if !ok || l.Op != token.MUL {
+					okAll = false
+					return
+				}
+				src, ok := l.X.(*ssa.FieldAddr)
+				if !ok || !sameField(src) || src.X != f.X {
+					okAll = false
+				}
+			case *ssa.FieldAddr:
+				if !sameField(t) {
+					return
+				}
+				for _, r := range *t.Referrers() {
+					switch u := r.(type) {
+					case *ssa.Store:
+						if u.Addr != ssa.Value(t) {
+							okAll = false
+						}
+					case *ssa.UnOp:
+					default:
+						okAll = false
+					}
+				}
+			}
+		})
+	}
+	fieldOnlyGrowsMemo[key] = okAll
+	return okAll
 }
